@@ -218,17 +218,34 @@ func QualifyReferences(tableSpecs []*sqlspec.Table, realm *schema.Realm) error {
 func ObjectRef(s *schema.Schema, o SpecTypeNamer) *schemahcl.Ref {
 	typ, name := o.SpecType(), o.SpecName()
 	idx := schemahcl.PathIndex{T: typ, V: []string{name}}
-	if s != nil && s.Realm != nil && len(s.Realm.Schemas) > 1 && slices.ContainsFunc(s.Realm.Schemas, func(s1 *schema.Schema) bool {
+	if s != nil && s.Realm != nil && len(s.Realm.Schemas) > 1 && (objectConflict(s, typ, name) || qualifierSchema(s.Realm, typ, name)) {
+		idx.V = append([]string{s.Name}, idx.V...)
+	}
+	return schemahcl.BuildRef([]schemahcl.PathIndex{idx})
+}
+
+// objectConflict reports if another schema of the realm
+// holds an object of the given type with the same name.
+func objectConflict(s *schema.Schema, typ, name string) bool {
+	return slices.ContainsFunc(s.Realm.Schemas, func(s1 *schema.Schema) bool {
 		return s1 != s && slices.ContainsFunc(s1.Objects, func(o1 schema.Object) bool {
 			if e, ok := o1.(SpecTypeNamer); ok {
 				return e.SpecType() == typ && e.SpecName() == name
 			}
 			return false
 		})
-	}) {
-		idx.V = append([]string{s.Name}, idx.V...)
-	}
-	return schemahcl.BuildRef([]schemahcl.PathIndex{idx})
+	})
+}
+
+// qualifierSchema reports if name is the name of a schema that QualifyObjects uses as
+// a qualifier for an object of the given type. Objects labeled like such a schema are
+// qualified as well (see the last loop of QualifyObjects), and so are their references.
+func qualifierSchema(r *schema.Realm, typ, name string) bool {
+	s1, ok := r.Schema(name)
+	return ok && slices.ContainsFunc(s1.Objects, func(o1 schema.Object) bool {
+		e, ok := o1.(SpecTypeNamer)
+		return ok && e.SpecType() == typ && objectConflict(s1, typ, e.SpecName())
+	})
 }
 
 // TableSpecRef returns a reference to the table in the spec. In case there is more than
